@@ -152,6 +152,7 @@ class Repo:
         for rel in self.overlay:
             if rel not in relpaths:
                 relpaths.append(rel)
+        parsed = []
         for rel in sorted(relpaths):
             if rel in self.overlay:
                 src = self.overlay[rel]
@@ -162,15 +163,17 @@ class Repo:
                 tree = ast.parse(src, filename=rel)
             except SyntaxError as exc:
                 raise AnalysisError(f"{rel} does not parse: {exc}") from exc
-            if self.ref_sources and self.ref_sources.get(rel) != src:
-                # functions re-expressed in a provably equivalent way are analysed as their
-                # reference version (acsa/equiv.py); never a source of violations
-                from .equiv import substitute_equivalents
+            parsed.append((rel, src, tree))
+        if self.ref_sources and any(self.ref_sources.get(rel) != src for rel, src, _ in parsed):
+            # functions re-expressed in a provably equivalent way are analysed as their reference
+            # version (acsa/equiv.py); never a source of violations
+            from .equiv import substitute_all
 
-                try:
-                    substitute_equivalents(rel, tree, self.ref_sources, self.equiv_stats)
-                except Exception as exc:  # the normaliser must never break an analysis
-                    self.equiv_stats.setdefault("errors", []).append(f"{rel}: {exc!r}")
+            try:
+                substitute_all({rel: t for rel, _, t in parsed}, {rel: s_ for rel, s_, _ in parsed}, self.ref_sources, self.equiv_stats)
+            except Exception as exc:  # the normaliser must never break an analysis
+                self.equiv_stats.setdefault("errors", []).append(repr(exc))
+        for rel, src, tree in parsed:
             if self.alpha_ref:
                 from .alpha import normalise_module
 
